@@ -259,6 +259,34 @@ ODD_ITEMS = [
     ("attr", "Add", "impl<'a> Add<&'a T> for &'a T { type Output = T; fn add(self, r: &'a T) -> T { T } }"),
     ("attr", "AddAssign", "impl Add for T { fn add(self, r: T) -> T { self } }"),
     ("attr", "Add", "impl AddAssign for T { fn add_assign(&mut self, r: T) { } }"),
+    # operand types that need parentheses behind `&`: bare trait-object / impl-trait types with several bounds, function pointers, unusual but valid type syntax
+    ("attr", "Add", "impl Add<dyn Tr + Send> for X { type Output = X; fn add(self, r: dyn Tr + Send) -> X { self } }"),
+    ("attr", "Add", "impl Add<u8> for dyn Tr + Send { type Output = u8; fn add(self, r: u8) -> u8 { r } }"),
+    ("attr", "Add, AddAssign", "impl<'a> Add<dyn Tr + 'a> for X { type Output = X; fn add(self, r: dyn Tr + 'a) -> X { self } }"),
+    ("attr", "Sub", "impl SubAssign<impl A + B> for X { fn sub_assign(&mut self, r: impl A + B) { } }"),
+    ("attr", "Add", "impl Add<dyn Tr> for X { type Output = X; fn add(self, r: dyn Tr) -> X { self } }"),
+    ("attr", "Add", "impl Add<fn(u8) -> u8> for X { type Output = X; fn add(self, r: fn(u8) -> u8) -> X { self } }"),
+    ("attr", "Add", "impl Add<(dyn Tr + Send)> for X { type Output = X; fn add(self, r: (dyn Tr + Send)) -> X { self } }"),
+    ("attr", "Add, AddAssign", "impl Add<[u8; 2]> for &(dyn Tr + Send) { type Output = u8; fn add(self, r: [u8; 2]) -> u8 { 0 } }"),
+    ("attr", "Mul", "impl Mul<!> for X { type Output = X; fn mul(self, r: !) -> X { self } }"),
+    ("attr", "Mul", "impl Mul<_> for X { type Output = X; fn mul(self, r: u8) -> X { self } }"),
+    ("attr", "Mul", "impl Mul<m!(u8)> for X { type Output = X; fn mul(self, r: m!(u8)) -> X { self } }"),
+    ("attr", "Mul", "impl Mul<*const u8> for X { type Output = X; fn mul(self, r: *const u8) -> X { self } }"),
+    ("attr", "Mul", "impl Mul<<u8 as Tr>::Out> for X { type Output = X; fn mul(self, r: <u8 as Tr>::Out) -> X { self } }"),
+    ("attr", "Clone, Debug, PartialEq, Hash, Default", "struct S<'a>(u8, &'a (dyn Tr + Send), Box<dyn Tr + Send>, fn(u8) -> u8, [u8; 2], (), !);"),
+    ("attr", "Add, Neg, AddAssign", "struct S<T>(T, (T, T), [T; 2], fn() -> T);"),
+    ("attr", "Clone, Debug, PartialEq", "struct S<T: ?Sized>(u8, dyn Tr + Send);"),
+    ("attr", "Deref, DerefMut", "struct S(dyn Tr + Send);"),
+    ("attr", "Deref", "struct S<T>(dyn Tr<T> + Send);"),
+    ("attr", "DerefMut", "struct S { a: impl A + B }"),
+    ("attr", "PartialEq, PartialOrd, Hash", "struct S(u8, #[partial_eq(by = f)] #[partial_ord(by = g)] #[hash(by = h)] dyn Tr + Send);"),
+    ("attr", "Ord, PartialOrd, Eq, PartialEq", "struct S(u8, #[ord(by = f)] dyn Tr + Send);"),
+    ("attr", "PartialEq", "enum E { A(u8, #[eq(by = f)] dyn Tr + Send) }"),
+    ("attr", "Add, AddAssign, Neg", "struct S(dyn Tr + Send);"),
+    ("attr", "Add, AddAssign, Neg", "struct S<T>(dyn Tr<T> + Send);"),
+    ("attr", "Eq, PartialEq", "struct S<T>(#[eq(key = $.k())] dyn Tr<T> + Send);"),
+    ("attr", "Clone, bound(dyn Tr + Send)", "struct S<T>(T);"),
+    ("attr", "Clone(bound(&'static (dyn Tr + Send), ..))", "struct S<T>(T);"),
     ("attr", "Add", "impl AddAssign<&U> for T { fn add_assign(&mut self, r: &U) { } }"),
     ("attr", "Add", "impl Assign for T { }"),
     ("attr", "Add", "impl gn for T { }"),
